@@ -4,6 +4,7 @@ package m3
 
 import (
 	"math"
+	"sync"
 	"time"
 
 	tally "github.com/uber-go/tally/v4"
@@ -285,4 +286,43 @@ func VerifC12BatchingAfterSendError() {
 	verifrt.Assert("c12.fault.later-metrics-emitted-once", seen["m2"] == 1 && seen["m3"] == 1)
 	verifrt.Assert("c12.fault.nothing-duplicated", seen["m0"] <= 1 && seen["m1"] <= 1)
 	verifrt.Reach("c12-batching-fault")
+}
+
+// VerifC12ConcurrentAllocate: two goroutines allocate histograms with the same tag set at the same
+// time (1 preemption, happens-before race check); every bucket of both must still be charged at least what it occupies.
+func VerifC12ConcurrentAllocate() {
+	r := vSizer(Compact)
+	tags := map[string]string{"k": "v"}
+	var hs [2]cachedHistogram
+	var wg sync.WaitGroup
+	verifrt.Explore(1)
+	wg.Add(2)
+	go func() {
+		defer wg.Done()
+		hs[0] = r.AllocateHistogram("alpha", tags, tally.ValueBuckets{1.5}).(cachedHistogram)
+	}()
+	go func() {
+		defer wg.Done()
+		hs[1] = r.AllocateHistogram("b", tags, tally.DurationBuckets{90 * time.Minute}).(cachedHistogram)
+	}()
+	wg.Wait()
+	verifrt.StopExplore()
+	v := verifrt.Int64("value")
+	for i, h := range hs {
+		bs := h.cachedValueBuckets
+		if i == 1 {
+			bs = h.cachedDurationBuckets
+		}
+		for _, b := range bs {
+			m := b.metric.metric
+			m.Value.Count = v
+			m.Timestamp = 1
+			m.Tags = append(append([]m3thrift.MetricTag{}, m.Tags...),
+				m3thrift.MetricTag{Name: r.bucketIDTagName, Value: b.bucketID},
+				m3thrift.MetricTag{Name: r.bucketTagName, Value: b.bucket})
+			verifrt.Assert("c12.concurrent.bucket-keeps-its-own-user-tags", len(b.metric.metric.Tags) == 1)
+			verifrt.Assert("c12.concurrent.charged-size-covers-encoded-metric", b.metric.size >= vActual(Compact, &m))
+		}
+	}
+	verifrt.Reach("c12-concurrent-allocate")
 }
